@@ -174,6 +174,7 @@ def handleSpecial (stream : String) (args : List String) : String :=
   | "srtp", _ => "noncompared"
   | "srtpflood", _ => "noncompared"
   | "sharedudp", _ => "noncompared"
+  | "hpktbuf", _ => "noncompared"
   | "udptlbuf", ms :: e0 :: ops =>
     match ms.toNat?, e0.toNat?, ops.mapM (fun t => match fields t with | [a, b] => do some (← a.toNat?, ← b.toNat?) | _ => none) with
     | some ms, some e0, some ops =>
